@@ -68,8 +68,8 @@ theorem good_sub {s s' : MState} (h : Good s) (hd : s'.delay = s.delay) (he : s'
   have := h (by rw [← hd]; exact h0) D (hs D hD)
   rw [he]; exact this
 
-theorem good_step (ord : List Nat) (s : MState) (op : Op) (hG : Good s)
-    (hc : cleanOp s op = true) : Good (step ord s op).1 := by
+theorem good_step (ord : List Nat) (s : MState) (op : Op) (hG : Good s) :
+    Good (step ord s op).1 := by
   cases op with
   | newData d comps => exact good_sub hG rfl rfl (fun D h => h)
   | append d =>
@@ -116,26 +116,16 @@ theorem good_step (ord : List Nat) (s : MState) (op : Op) (hG : Good s)
       · exact hG
       · exact good_sync ord _
   | addLinks es =>
-    simp only [cleanOp, beq_iff_eq] at hc
     simp only [step]
-    split
-    · exact good_sync ord _
-    · rename_i ext' st hne heq
-      rw [heq] at hc
-      exact (hne hc).elim
+    exact good_sync ord _
   | removeLink i =>
     simp only [step]
     split
     · exact hG
     · exact good_sync ord _
   | removeLinks is =>
-    simp only [cleanOp, beq_iff_eq] at hc
     simp only [step]
-    split
-    · exact good_sync ord _
-    · rename_i ext' st hne heq
-      rw [heq] at hc
-      exact (hne hc).elim
+    exact good_sync ord _
   | delayBegin =>
     apply good_of_delay
     simp [step]
@@ -149,14 +139,12 @@ theorem good_init : Good MState.init := by
   intro _ D hD
   simp [MState.init] at hD
 
-theorem good_run (s : MState) (ops : List (Op × List Nat)) (hG : Good s)
-    (hc : runClean s ops = true) : Good (run s ops) := by
+theorem good_run (s : MState) (ops : List (Op × List Nat)) (hG : Good s) : Good (run s ops) := by
   induction ops generalizing s with
   | nil => exact hG
   | cons a r ih =>
     obtain ⟨op, ord⟩ := a
-    simp only [runClean, Bool.and_eq_true] at hc
-    exact ih _ (good_step ord s op hG hc.1) hc.2
+    exact ih _ (good_step ord s op hG)
 
 /-! ### no stored link mentions a removed cid / dataset -/
 
@@ -408,13 +396,7 @@ theorem nd_step (ord : List Nat) (s : MState) (op : Op) (h : ND s) (hw : wfOp s 
       · exact Or.inl h1
       · exact Or.inr (fun c hc => hw x h1 c hc)
     simp only [step]
-    split
-    · rename_i ext' heq
-      rw [heq] at key
-      exact nd_sync ord key
-    · rename_i ext' st _ heq
-      rw [heq] at key
-      exact key
+    exact nd_sync ord key
   | removeLink i =>
     simp only [step]
     split
@@ -426,13 +408,7 @@ theorem nd_step (ord : List Nat) (s : MState) (op : Op) (h : ND s) (hw : wfOp s 
     have key : ND { s with ext := (removeMany s.ext is).1 } :=
       nd_mono h (fun x hx => Or.inl (removeMany_mem is s.ext x hx)) (fun c hc => hc)
     simp only [step]
-    split
-    · rename_i ext' heq
-      rw [heq] at key
-      exact nd_sync ord key
-    · rename_i ext' st _ heq
-      rw [heq] at key
-      exact key
+    exact nd_sync ord key
   | delayBegin => exact nd_mono h (fun e he => Or.inl he) (fun c hc => hc)
   | delayEnd =>
     simp only [step]
